@@ -109,7 +109,13 @@ def count_fetches(config, text):
         global _fetch_counter
         _fetch_counter = cnt
         try:
-            outcome_of(shared_engine(config), text)
+            # a scratch engine: the shared engines must be pristine when the
+            # workers are forked, so that a run's in-process history is
+            # exactly the earlier runs of its chunk (replayable as prelude)
+            eng = _engines.get(('scratch', config))
+            if eng is None:
+                eng = _engines[('scratch', config)] = make_engine(config)
+            outcome_of(eng, text)
         finally:
             _fetch_counter = None
         n = _fetches[k] = cnt[0]
